@@ -39,7 +39,7 @@ func init() {
 			"harness's DER writer through ParseResponseForCert; every byte of short signed responses flipped (all 8 bits for the full seeds) and structural mutations, judged by an independent " +
 			"verifier (own TLV reader + crypto/ecdsa, crypto/rsa) with golang.org/x/crypto/ocsp as second opinion; non-trivial = the untampered message was accepted and every listed field " +
 			"was compared / the tampered message was decided by zcrypto; distinct = hash of the template description or of (seed response, mutation); enumerated flips are distinct by construction",
-		MinNontrivial:         100000,
+		MinNontrivial:         150000,
 		MinNontrivialThorough: 2000000,
 		Shards:                16,
 		Assumptions: []string{
@@ -827,7 +827,6 @@ func (e *c13env) judge(s *seed, m []byte, kind, caseID string, detail func() map
 	if v.structural && same {
 		// the mutation is outside everything a signature covers and the reader of the oracle is stricter about the wrapper than zcrypto
 		c.Count("lenient_unsigned_wrapper_mutation_accepted:"+kind, 1)
-		c.Note("DEBUG lenient %s %v reason=%s seed=%s", kind, detail(), v.reason, s.name)
 		return
 	}
 	in := detail()
